@@ -193,3 +193,74 @@ def fold_new_condition_temps(repo) -> List[str]:
         if changed:
             touched.append(q)
     return touched
+
+
+# ---------------------------------------------------------------------------
+# Statement-level shape of every function on the tree the rules were validated
+# on (reference_shapes.json). core.run_property uses it to tell a *small edit*
+# of a function (a mechanism rule that no longer matches is then a finding)
+# from a *restructuring* (the rule cannot decide: analysis error, re-validate).
+
+SHAPES = Path(__file__).with_name("reference_shapes.json")
+_SHAPES_CACHE: Optional[Dict[str, List[str]]] = None
+
+
+def _stmt_text(st: ast.stmt) -> str:
+    if isinstance(st, (ast.If, ast.While)):
+        return f"{type(st).__name__} {ast.unparse(st.test)}"
+    if isinstance(st, (ast.For, ast.AsyncFor)):
+        return f"For {ast.unparse(st.target)} in {ast.unparse(st.iter)}"
+    if isinstance(st, (ast.With, ast.AsyncWith)):
+        return "With " + ", ".join(ast.unparse(i) for i in st.items)
+    if isinstance(st, ast.Try):
+        return "Try " + ",".join(ast.unparse(h.type) if h.type is not None else "*" for h in st.handlers) + ("+finally" if st.finalbody else "")
+    if isinstance(st, (ast.FunctionDef, ast.AsyncFunctionDef, ast.ClassDef)):
+        return f"def {st.name}"
+    return ast.unparse(st)
+
+
+def stmt_hashes(fn: ast.AST) -> List[str]:
+    out = []
+    if isinstance(fn, (ast.FunctionDef, ast.AsyncFunctionDef)):
+        a = fn.args
+        sig = ",".join(x.arg for x in a.posonlyargs + a.args + a.kwonlyargs) + ("*" if a.vararg else "") + ("**" if a.kwarg else "")
+        out.append("S" + hashlib.sha256(sig.encode()).hexdigest()[:9])   # the parameter list (an interface change is a restructuring)
+    stack = list(getattr(fn, "body", []))
+    while stack:
+        st = stack.pop()
+        if isinstance(st, ast.Expr) and isinstance(st.value, ast.Constant) and isinstance(st.value.value, str):
+            continue
+        out.append(hashlib.sha256(_stmt_text(st).encode()).hexdigest()[:10])
+        if isinstance(st, (ast.FunctionDef, ast.AsyncFunctionDef, ast.ClassDef)):
+            continue
+        for field in ("body", "orelse", "finalbody"):
+            stack.extend(getattr(st, field, []) or [])
+        for h in getattr(st, "handlers", []) or []:
+            stack.extend(h.body)
+    return sorted(out)
+
+
+def build_shapes(repo) -> Dict[str, List[str]]:
+    return {q: stmt_hashes(fi.node) for q, fi in sorted(repo.funcs.items())}
+
+
+def shapes() -> Dict[str, List[str]]:
+    global _SHAPES_CACHE
+    if _SHAPES_CACHE is None:
+        _SHAPES_CACHE = json.loads(SHAPES.read_text()) if SHAPES.exists() else {}
+    return _SHAPES_CACHE
+
+
+def edit_size(repo, qual: str) -> Optional[int]:
+    """Number of statements of `qual` that differ from the validated tree (added + removed); None if the function is new."""
+    import collections
+
+    ref = shapes().get(qual)
+    fi = repo.funcs.get(qual)
+    if ref is None or fi is None:
+        return None
+    a, b = collections.Counter(ref), collections.Counter(stmt_hashes(fi.node))
+    d = (a - b) + (b - a)
+    if any(k.startswith("S") for k in d):
+        return 1000   # parameter list changed
+    return sum(d.values())
